@@ -10,6 +10,7 @@ that the current source uses exactly that map, for every repository argument of
 every one of the 18 methods and for nothing else.
 -/
 import OciModel.SubLemmas
+import OciModel.SubMemLemmas
 
 namespace OciModel.Props.C13
 open OciModel OciModel.Sub OciModel.Generated.Sub OciModel.Generated OciModel.Scope
@@ -160,6 +161,101 @@ theorem sub_scopes_empty (p : Bytes) (s : Scope) (h : Scope.isEmpty s = true) : 
 
 theorem sub_scopes_wf (p : Bytes) (s : Scope) (h : WF s) : WF (Sub.mapScopes p s) := mapScopes_wf p s h
 
+/-! ### The view equals the restricted registry (over the `ocimem` model)
+
+`OciModel/SubMem.lean`: `restrict p s` keeps the repositories of `s` named `p/n`, under the
+name `n`, with all they hold (upload sessions too), and drops the rest; `mapOp p` is the
+view's name mapping on each of the 22 operations of `Mem.Op` (what `C13_holds` says of the
+regenerated table: every repository name, both names of a mount, the start point of a
+repository listing); `mapOut p op` is the view's treatment of the answer (a repository
+listing keeps the names under `p/`, stripped — `sub_listing_events`; everything else,
+a TAG listing included, is handed back as it is).
+
+`Ref.isRepo p` is needed only where a repository may be created (`creates`): `p/n` is a
+valid name iff `p` and `n` both are (`sub_name_valid`), so a view under an invalid prefix
+creates nothing while the restricted registry would (`sub_invalid_prefix_differs`). It
+implies `p ≠ ""` (`Sub` treats the empty prefix as no view at all). -/
+
+section Restriction
+open OciModel.SubMem
+
+variable (H : Bytes → Bytes)
+
+/-- `p/n` is a valid repository name iff both parts are: `ocimem` puts no bound on the length. -/
+theorem sub_name_valid (p n : Bytes) : Ref.isRepo (mapName p n) = (Ref.isRepo p && Ref.isRepo n) :=
+  isRepo_mapName p n
+
+/-- What the view answers is what the restricted registry answers, and the restricted state
+evolves as the restricted registry would: every operation, every state, every hash. -/
+theorem sub_equals_restriction {p : Bytes} (hp : Ref.isRepo p = true) (s : Mem.State) (op : Mem.Op) :
+    (Mem.step H (restrict p s) op).2 = mapOut p op (Mem.step H s (mapOp p op)).2 ∧
+    restrict p (Mem.step H s (mapOp p op)).1 = (Mem.step H (restrict p s) op).1 := by
+  rw [step_restrict H s op (fun _ => hp)]
+  exact ⟨rfl, rfl⟩
+
+/-- For the 17 operations that cannot create a repository (all but `pushBlob`, `pushChunked`,
+`resume`, `mount`, `pushManifest`) the prefix may be any byte string, the empty one included. -/
+theorem sub_equals_restriction_no_create (p : Bytes) (s : Mem.State) (op : Mem.Op) (hop : creates op = false) :
+    (Mem.step H (restrict p s) op).2 = mapOut p op (Mem.step H s (mapOp p op)).2 ∧
+    restrict p (Mem.step H s (mapOp p op)).1 = (Mem.step H (restrict p s) op).1 := by
+  rw [step_restrict H s op (fun h => by rw [hop] at h; cases h)]
+  exact ⟨rfl, rfl⟩
+
+/-- The hypothesis on the prefix is needed: under the prefix `A` (not a repository name) the
+view refuses to start an upload in `a`, which the restricted registry accepts. -/
+theorem sub_invalid_prefix_differs :
+    (Mem.step H (restrict [65] (Mem.init false)) (.pushChunked [97])).2 = .okWriter (Mem.freshID 0) ∧
+    mapOut [65] (.pushChunked [97]) (Mem.step H (Mem.init false) (mapOp [65] (.pushChunked [97]))).2
+      = .err "NAME_INVALID" := by
+  constructor <;> rfl
+
+/-- The frame: repositories that are not under `p/` — same names, same contents, same order —
+are untouched by whatever is done through the view (no hypothesis on `p`, `s` or the names). -/
+theorem sub_frame (p : Bytes) (s : Mem.State) (op : Mem.Op) :
+    outsideRepos p (Mem.step H s (mapOp p op)).1.repos = outsideRepos p s.repos :=
+  step_outside H p s op
+
+/-- The same, read through `getRepo`: a name that is not `p/…` finds what it found before. -/
+theorem sub_frame_lookup (p : Bytes) (s : Mem.State) (op : Mem.Op) (k : Bytes) (hk : stripName p k = none) :
+    Mem.getRepo (Mem.step H s (mapOp p op)).1 k = Mem.getRepo s k :=
+  getRepo_of_outside hk (step_outside H p s op)
+
+/-- `restrict` and `outsideRepos` split the registry: a repository is in exactly one of them. -/
+theorem sub_restrict_partition (p : Bytes) (s : Mem.State) (k : Bytes) (rp : Mem.Repo) :
+    (k, rp) ∈ s.repos ↔
+      ((k, rp) ∈ outsideRepos p s.repos ∧ stripName p k = none) ∨
+      (∃ n, k = mapName p n ∧ (n, rp) ∈ (restrict p s).repos) := by
+  simp only [outsideRepos, restrict, restrictRepos, List.mem_filter, List.mem_filterMap, Option.isNone_iff_eq_none,
+    Option.map_eq_some_iff, Prod.mk.injEq, Prod.exists]
+  constructor
+  · intro h
+    cases hs : stripName p k with
+    | none => exact Or.inl ⟨⟨h, rfl⟩, rfl⟩
+    | some n =>
+      exact Or.inr ⟨n, (stripName_eq_some p k n).mp hs, k, rp, h, n, hs, rfl, rfl⟩
+  · rintro (⟨⟨h, _⟩, _⟩ | ⟨n, hk, k', rp', h, n', hs, hn, hrp⟩)
+    · exact h
+    · subst hn hrp
+      rw [hk, ← (stripName_eq_some p k' n').mp hs]; exact h
+
+/-- Histories: any sequence of operations through the view, from any state. -/
+theorem sub_equals_restriction_history {p : Bytes} (hp : Ref.isRepo p = true) (s : Mem.State) (ops : List Mem.Op) :
+    (Mem.run H (restrict p s) ops).2 = mapOuts p ops (Mem.run H s (ops.map (mapOp p))).2 ∧
+    restrict p (Mem.run H s (ops.map (mapOp p))).1 = (Mem.run H (restrict p s) ops).1 := by
+  rw [run_restrict H s ops (fun _ => hp)]
+  exact ⟨rfl, rfl⟩
+
+theorem sub_frame_history (p : Bytes) (s : Mem.State) (ops : List Mem.Op) :
+    outsideRepos p (Mem.run H s (ops.map (mapOp p))).1.repos = outsideRepos p s.repos :=
+  run_outside H p s ops
+
+/-- A view over a fresh registry answers as a fresh registry. -/
+theorem sub_of_fresh_registry {p : Bytes} (hp : Ref.isRepo p = true) (imm : Bool) (ops : List Mem.Op) :
+    (Mem.run H (Mem.init imm) ops).2 = mapOuts p ops (Mem.run H (Mem.init imm) (ops.map (mapOp p))).2 :=
+  (sub_equals_restriction_history H hp (Mem.init imm) ops).1
+
+end Restriction
+
 /-! ### Obligations on the regenerated facts -/
 
 /-- `repo` is plain concatenation, `mapScopes` passes empty and unlimited scopes
@@ -223,5 +319,39 @@ example :
     let s := newScope [(tyRepository, [120], actPull), ([102], [], [])]
     s.unlimited = false ∧ Scope.isEmpty s = false ∧
     iter (Sub.mapScopes [97] s) = [([102], [], []), (tyRepository, [97, 47, 120], actPull)] := by decide
+
+/-! The restriction on a registry holding `p/a`, the sibling `p-x/b` and `q`. -/
+section RestrictionExample
+open OciModel.SubMem
+
+def exBlob : Mem.Blob := ⟨Mem.octetStream, [1, 2, 3], [], []⟩
+def exRepoA : Mem.Repo := ⟨[(strBytes "v1", ⟨[109], [100], 3⟩)], [([100], exBlob)], [([7], exBlob)], [([64, 48], ⟨[9], -1, false, none⟩)]⟩
+def exRepoB : Mem.Repo := ⟨[], [], [([8], exBlob)], []⟩
+def exState : Mem.State :=
+  ⟨false, [(strBytes "p-x/b", exRepoB), (strBytes "p/a", exRepoA), (strBytes "q", Mem.emptyRepo)], 1⟩
+def exH : Bytes → Bytes := fun b => 104 :: b
+
+example : Ref.isRepo (strBytes "p") = true := by decide
+example : creates (.getBlob (strBytes "a") [7]) = false ∧ creates (.wCommit (strBytes "a") [64, 48] []) = false := by decide
+example : stripName (strBytes "p") (strBytes "p-x/b") = none ∧ stripName (strBytes "p") (strBytes "q") = none := by decide
+example : restrict (strBytes "p") exState = ⟨false, [(strBytes "a", exRepoA)], 1⟩ := by decide
+example : outsideRepos (strBytes "p") exState.repos = [(strBytes "p-x/b", exRepoB), (strBytes "q", Mem.emptyRepo)] := by decide
+/-- the whole registry lists three repositories, the view one -/
+example : (Mem.step exH exState (.repositories [])).2 = .okList [strBytes "p-x/b", strBytes "p/a", strBytes "q"] := by decide
+example : mapOut (strBytes "p") (.repositories []) (Mem.step exH exState (mapOp (strBytes "p") (.repositories []))).2
+    = .okList [strBytes "a"] := by decide
+example : (Mem.step exH (restrict (strBytes "p") exState) (.repositories [])).2 = .okList [strBytes "a"] := by decide
+/-- a tag listing is an `okList` too and is not stripped -/
+example : mapOut (strBytes "p") (.tags (strBytes "a") []) (Mem.step exH exState (mapOp (strBytes "p") (.tags (strBytes "a") []))).2
+    = .okList [strBytes "v1"] := by decide
+/-- the sibling's blob is not reachable through the view, whatever name is tried -/
+example : (Mem.step exH exState (mapOp (strBytes "p") (.getBlob (strBytes "../p-x/b") [8]))).2 = .err "NAME_UNKNOWN" := by decide
+/-- a push through the view creates `p/c` below and `c` in the restriction, and leaves the rest -/
+example :
+    let s' := (Mem.step exH exState (mapOp (strBytes "p") (.pushChunked (strBytes "c")))).1
+    (restrict (strBytes "p") s').repos.map (·.1) = [strBytes "c", strBytes "a"] ∧
+    outsideRepos (strBytes "p") s'.repos = outsideRepos (strBytes "p") exState.repos := by decide
+
+end RestrictionExample
 
 end OciModel.Props.C13
